@@ -163,7 +163,15 @@ async fn inject(ev: Event, x: &PeerConnection, y: &PeerConnection) -> Result<(),
     Ok(())
 }
 
+/// `exec_once`, repeated (up to 3 attempts) when the *setup* of the pair failed (busy host): a pair that
+/// cannot be set up is C10's subject, not a C17 observation.
 pub async fn exec(sc: &Scen) -> Outcome {
+    let mut o = exec_once(sc).await;
+    for _ in 0..2 { if o.err.as_deref().is_some_and(|e| e.starts_with("setup:")) { o = exec_once(sc).await; } else { break; } }
+    o
+}
+
+async fn exec_once(sc: &Scen) -> Outcome {
     let mut out = Outcome::default();
     let cfg = sc.cfg();
     let vanish = sc.events.contains(&Event::PeerVanish) || sc.events.contains(&Event::PeerClose) || sc.events.contains(&Event::BlockedSenderClose);
@@ -300,7 +308,9 @@ pub async fn exec(sc: &Scen) -> Outcome {
     let c_offer = timed(async { x.create_offer().await.is_ok() }, lim).await;
     let c_wfc = timed(async { x.wait_for_connected().await.is_ok() }, lim).await;
     let c_recv: String = if watches.is_empty() { "-".into() } else { watches.iter().map(|w| if w.ended.load(Ordering::SeqCst) { 'o' } else { 'p' }).collect() };
-    out.calls = format!("{c_send}{c_offer}{c_wfc}/{c_recv}");
+    // is `inner.sctp_transport` still held after the event? (close_with_reason must `take()` it)
+    let held = x.verif_lc_sctp_transport().is_some() as u8;
+    out.calls = format!("{c_send}{c_offer}{c_wfc}/{c_recv}/h{held}");
     p.off.pc.close(); p.ans.pc.close();
     out
 }
